@@ -27,14 +27,24 @@ from . import e2e
 SCHEMA_A = '''
 schema { query: Query mutation: Mutation }
 """root"""
-type Query { user(id: ID!, filter: Filter): User  search(text: String = "x", kinds: [Kind!] = [A]): [Result!]! }
+type Query { user(id: ID!, filter: Filter): User  search(text: String = "x", kinds: [Kind!] = [A]): [Result!]!  _service(where: _text_exp, any: _Any): _Service }
 type Mutation { update(data: UserInput!, opts: Options = {dry: true, level: 2}): User }
 """a user"""
 type User implements Node { id: ID! name: String kind: Kind! friends: [User!] }
 type Post implements Node { id: ID! title: String! }
 interface Node { id: ID! }
 union Result = User | Post
-enum Kind { A B None }
+enum Kind {
+  "first kind"
+  A
+  """second kind
+  on two lines"""
+  B
+  None
+}
+type _Service { sdl: String }
+scalar _Any
+input _text_exp { _eq: String _in: [String!] }
 input Filter { kind: Kind = B  tags: [String!] = ["t", "u"]  limit: Int! = 10  nested: Options  ratio: Float = 1.5  on: Boolean! = false }
 input Options { dry: Boolean = false  level: Int! = 1  kinds: [Kind] = [A, null]  inner: Inner = {v: "q", k: B} }
 input Inner { v: String!  k: Kind = A  more: [Inner!] }
@@ -46,6 +56,7 @@ QUERIES_A = '''
 query GetUser($id: ID!, $f: Filter = {limit: 2}) { user(id: $id, filter: $f) { id name kind friends { id } } }
 query Search($t: String, $k: [Kind!]) { search(text: $t, kinds: $k) { __typename ... on User { id name } ... on Post { title } } }
 mutation Update($d: UserInput!, $o: Options) { update(data: $d, opts: $o) { id } }
+query Service($w: _text_exp) { _service(where: $w) { sdl } }
 '''
 
 SCHEMA_B = '''
